@@ -38,6 +38,7 @@ import (
 	"time"
 
 	pb "github.com/theparanoids/crypki/proto"
+	"github.com/theparanoids/ysshra/internal/backoff"
 	"github.com/theparanoids/ysshra/tlsutils"
 	"github.com/theparanoids/ysshra/verifh"
 	"golang.org/x/crypto/ssh"
@@ -72,6 +73,9 @@ type zvsInfo struct {
 	Replies []string `json:"replies"` // hex of the key material each endpoint answers with
 	Codes   []int    `json:"codes"`   // status code of "rpc" endpoints
 	TryMs   int      `json:"tryms"`
+	Big     bool     `json:"big,omitempty"`     // replies too large to record: they are re-created from the templates on replay
+	Discard string   `json:"discard,omitempty"` // set when the run of this case says nothing (machine too slow for its timing)
+	WallMs  int      `json:"wallms"`
 	Loaded0 []string `json:"loaded0"` // CA names TLS configurations of this process had read when the case started
 	Note    string   `json:"note,omitempty"`
 }
@@ -80,21 +84,24 @@ type zvsCase struct {
 	Tid    string    `json:"tid"`
 	Eps    []zvsTpl  `json:"eps"`
 	Bundle zvsBundle `json:"bundle"`
-	Ctx    string    `json:"ctx"`  // request budget: "wide" (default) | "tight"
-	Hist   string    `json:"hist"` // process history: "none" (default) | "before" | "between" | "signer" | "rotate"
+	Tries  int       `json:"tries"` // tries per endpoint of the retry interceptor (default 1)
+	Ctx    string    `json:"ctx"`   // request budget: "wide" (default) | "tight" | "none" | "ample"
+	Hist   string    `json:"hist"`  // process history: "none" (default) | "before" | "between" | "signer" | "rotate"
 	Info   *zvsInfo  `json:"info"`
+	raw    [][]byte  // the reply bytes of each endpoint (always; info.replies omits what is too large to record)
 }
 
 type zvsPlan struct {
-	Mode    string    `json:"mode"`
-	Cases   []zvsCase `json:"cases"`
-	Random  int       `json:"random"`
-	N0      bool      `json:"n0"`
-	Replays []zvsCase `json:"replays"`
-	Lanes   int       `json:"lanes"`
-	TryMs   int       `json:"tryms"`
-	Preload []string  `json:"preload"` // CA names another TLS configuration loads before anything else (re-execution of a history)
-	OnlyCas []string  `json:"onlycas"` // random cases use bundles over exactly these CAs (a process with a controlled history)
+	Mode      string    `json:"mode"`
+	Cases     []zvsCase `json:"cases"`
+	Random    int       `json:"random"`
+	N0        bool      `json:"n0"`
+	Replays   []zvsCase `json:"replays"`
+	Lanes     int       `json:"lanes"`
+	TryMs     int       `json:"tryms"`
+	Preload   []string  `json:"preload"`   // CA names another TLS configuration loads before anything else (re-execution of a history)
+	BackoffMs int       `json:"backoffms"` // delay between the tries of one endpoint (sets backoff.DefaultConfig for this process)
+	OnlyCas   []string  `json:"onlycas"`   // random cases use bundles over exactly these CAs (a process with a controlled history)
 }
 
 type zvsReset struct {
@@ -103,6 +110,7 @@ type zvsReset struct {
 	Eps    []zvsTpl  `json:"eps"`
 	Bundle zvsBundle `json:"bundle"`
 	Ctx    string    `json:"ctx"`
+	Tries  int       `json:"tries"`
 	Hist   string    `json:"hist"`
 	Info   *zvsInfo  `json:"info"`
 }
@@ -188,6 +196,32 @@ func zvsLine(c *ssh.Certificate, comment, indent, eol string) []byte {
 	return []byte(indent + l + eol)
 }
 
+// zvsCm names a comment in a trace: its bytes in hex, or length and digest when it is long (equality of names = equality of bytes).
+func zvsCm(cm string) string {
+	if len(cm) <= 200 {
+		return hex.EncodeToString([]byte(cm))
+	}
+	h := sha256.Sum256([]byte(cm))
+	return fmt.Sprintf("len%d-sha256-%s", len(cm), hex.EncodeToString(h[:12]))
+}
+
+// zvsLongComment pads the comment so that the reply line of crt (key type, base64, blank, comment; without the line
+// terminator) is exactly n bytes long.
+func zvsLongComment(crt *ssh.Certificate, n int, m, j int) string {
+	base := len(strings.TrimRight(string(ssh.MarshalAuthorizedKey(crt)), "\n")) + 1
+	k := n - base
+	if k < 8 {
+		panic("verif: line length below the certificate's own length")
+	}
+	b := make([]byte, k)
+	pat := fmt.Sprintf("long comment %d_%d 0123456789abcdefghijklmnopqrstuvwxyz ", m, j)
+	for x := range b {
+		b[x] = pat[x%len(pat)]
+	}
+	b[0], b[k-1] = 'c', 'z'
+	return string(b)
+}
+
 func zvsComment(shape string, m, j int, r *mrand.Rand) string {
 	switch shape {
 	case "none":
@@ -212,15 +246,18 @@ func zvsInstantiate(c *zvsCase, r *mrand.Rand) {
 	if c.Info == nil {
 		c.Info = &zvsInfo{}
 	}
-	have := len(c.Info.Replies) == len(c.Eps) && len(c.Info.Codes) == len(c.Eps) && len(c.Eps) > 0
+	have := len(c.Info.Replies) == len(c.Eps) && len(c.Info.Codes) == len(c.Eps) && len(c.Eps) > 0 && !c.Info.Big
+	c.Info.Big = false
 	if !have {
 		c.Info.Replies = make([]string, len(c.Eps))
 		c.Info.Codes = make([]int, len(c.Eps))
 	}
+	c.raw = make([][]byte, len(c.Eps))
 	for m := range c.Eps {
 		e := &c.Eps[m]
 		e.Sh = zvsNorm(e.Sh)
 		if have {
+			c.raw[m], _ = hex.DecodeString(c.Info.Replies[m])
 			e.Certs, e.Cm = zvsNorm(e.Certs), zvsNorm(e.Cm)
 			continue
 		}
@@ -231,9 +268,12 @@ func zvsInstantiate(c *zvsCase, r *mrand.Rand) {
 			for j, sh := range e.Sh {
 				crt := zvsCert(m+1, j+1)
 				cm := zvsComment(sh, m+1, j+1, r)
+				if n, err := strconv.Atoi(strings.TrimPrefix(sh, "L")); err == nil && strings.HasPrefix(sh, "L") {
+					cm = zvsLongComment(crt, n, m+1, j+1)
+				}
 				reply = append(reply, zvsLine(crt, cm, "", "\n")...)
 				e.Certs = append(e.Certs, zvsFp(crt))
-				e.Cm = append(e.Cm, hex.EncodeToString([]byte(cm)))
+				e.Cm = append(e.Cm, zvsCm(cm))
 			}
 		case "unparsable":
 			reply = []byte([]string{"this is not key material\n", "ssh-ed25519 AAAA!!!! broken\n", "-----BEGIN CERTIFICATE-----\nMIIB\n-----END CERTIFICATE-----\n",
@@ -258,7 +298,12 @@ func zvsInstantiate(c *zvsCase, r *mrand.Rand) {
 			}
 			c.Info.Codes[m] = pool[r.Intn(len(pool))]
 		}
-		c.Info.Replies[m] = hex.EncodeToString(reply)
+		c.raw[m] = reply
+		if len(reply) > 16384 {
+			c.Info.Big = true // re-created from the templates on replay
+		} else {
+			c.Info.Replies[m] = hex.EncodeToString(reply)
+		}
 	}
 }
 
@@ -331,7 +376,7 @@ func zvsRandomCase(tid string, r *mrand.Rand, tlsMode bool, onlyCas []string) zv
 				reply = append(reply, zvsLine(crt, cm, indent, eol)...)
 				e.Sh = append(e.Sh, sh)
 				e.Certs = append(e.Certs, zvsFp(crt))
-				e.Cm = append(e.Cm, hex.EncodeToString([]byte(cm)))
+				e.Cm = append(e.Cm, zvsCm(cm))
 			}
 			if len(reply) > 0 && reply[len(reply)-1] == '\n' {
 				for r.Intn(3) == 0 { // trailing garbage
@@ -576,6 +621,9 @@ func (p *zvsPKI) serverConfig(e zvsTpl, pos int) *tls.Config {
 // lanes: a set of position servers (endpoint 1..4) that execute one case at a time
 
 const zvsMaxPos = 4
+
+// zvsBackoffDelay is the delay between two tries at one endpoint once the plan has set it (plan.backoffms).
+var zvsBackoffDelay = 2 * time.Second
 
 type zvsHit struct {
 	seq       int
@@ -901,7 +949,7 @@ func (l *zvsLane) run(c *zvsCase, base *zvsBase, r *mrand.Rand, tryMs int) []int
 	reply := make([][]byte, n)
 	hasDeadline := false
 	for m := range c.Eps {
-		reply[m], _ = hex.DecodeString(c.Info.Replies[m])
+		reply[m] = c.raw[m]
 		hasDeadline = hasDeadline || c.Eps[m].Cls == "deadline"
 	}
 	req := zvsRequest(r, c.Tid)
@@ -927,6 +975,9 @@ func (l *zvsLane) run(c *zvsCase, base *zvsBase, r *mrand.Rand, tryMs int) []int
 	}
 	if c.Hist == "" {
 		c.Hist = "none"
+	}
+	if c.Tries <= 0 {
+		c.Tries = 1
 	}
 	hasDead := false
 	for m := range c.Eps {
@@ -1003,7 +1054,7 @@ func (l *zvsLane) run(c *zvsCase, base *zvsBase, r *mrand.Rand, tryMs int) []int
 				}
 			} else {
 				s, err = NewSigner(SignerConfig{TLSClientKeyFile: l.pki.cliKey, TLSClientCertFile: l.pki.cliCert, TLSCACertFiles: bundleFiles,
-					CrypkiEndpoints: names, CrypkiPort: port, Retries: 1, PerTryTimeout: 5 * time.Second})
+					CrypkiEndpoints: names, CrypkiPort: port, Retries: uint(c.Tries), PerTryTimeout: 5 * time.Second})
 			}
 		}()
 		step(map[string]interface{}{"op": "construct", "err": err != nil || s == nil})
@@ -1063,7 +1114,7 @@ func (l *zvsLane) run(c *zvsCase, base *zvsBase, r *mrand.Rand, tryMs int) []int
 		}
 		s.dialOptions = append(append([]grpc.DialOption{}, s.dialOptions...), grpc.WithTransportCredentials(insecure.NewCredentials()), grpc.WithContextDialer(l.dial))
 	}
-	res := zvsReset{Ev: "reset", Tid: c.Tid, Eps: c.Eps, Bundle: zvsBundle{Cas: zvsNorm(c.Bundle.Cas), Lay: c.Bundle.Lay}, Ctx: c.Ctx, Hist: c.Hist, Info: c.Info}
+	res := zvsReset{Ev: "reset", Tid: c.Tid, Eps: c.Eps, Bundle: zvsBundle{Cas: zvsNorm(c.Bundle.Cas), Lay: c.Bundle.Lay}, Ctx: c.Ctx, Tries: c.Tries, Hist: c.Hist, Info: c.Info}
 	if s != nil {
 		var certs []ssh.PublicKey
 		var comments []string
@@ -1074,6 +1125,14 @@ func (l *zvsLane) run(c *zvsCase, base *zvsBase, r *mrand.Rand, tryMs int) []int
 		if c.Ctx == "tight" {
 			budget = 1500 * time.Millisecond
 		}
+		if c.Ctx == "ample" {
+			// three times what the retry sequences of ALL endpoints of the list take together (tries-1 backoff delays each)
+			budget = 3 * time.Duration(n*(c.Tries-1)) * zvsBackoffDelay
+			if budget < 3*time.Second {
+				budget = 3 * time.Second
+			}
+		}
+		started := time.Now()
 		ctx, cancel := context.WithTimeout(context.Background(), budget)
 		if c.Ctx == "none" {
 			// no deadline: every endpoint of such a case fails or answers at once, so Sign returns at once; the watchdog
@@ -1106,6 +1165,12 @@ func (l *zvsLane) run(c *zvsCase, base *zvsBase, r *mrand.Rand, tryMs int) []int
 			certs, comments, err = nil, nil, fmt.Errorf("verif: Sign did not return within its budget plus %v", grace)
 		}
 		cancel()
+		c.Info.WallMs = int(time.Since(started) / time.Millisecond)
+		if c.Ctx == "ample" && !hang && time.Since(started) > budget*6/10 {
+			// correct code needs at most a third of this budget; a run that used more than 60 % of it was slowed down by the
+			// machine and is not judged (whatever it returned)
+			c.Info.Discard = "slow"
+		}
 		// a signer that keeps connections offers a way to release them: use it (interface assertion, so that the harness
 		// compiles whether or not the method exists)
 		func() {
@@ -1152,7 +1217,7 @@ func (l *zvsLane) run(c *zvsCase, base *zvsBase, r *mrand.Rand, tryMs int) []int
 			fps = append(fps, zvsFp(k))
 		}
 		for _, cm := range comments {
-			cms = append(cms, hex.EncodeToString([]byte(cm)))
+			cms = append(cms, zvsCm(cm))
 		}
 		if err != nil && c.Info.Note == "" {
 			c.Info.Note = strings.ToValidUTF8(err.Error(), "?")
@@ -1185,6 +1250,11 @@ func TestVerifSigner(t *testing.T) {
 	defer os.RemoveAll(dir)
 	pki := zvsNewPKI(dir)
 	base := &zvsBase{pki: pki, opts: map[int][]grpc.DialOption{}}
+	if plan.BackoffMs > 0 {
+		// NewSigner hands backoff.DefaultConfig to the retry interceptor; a short constant delay keeps retry cases short
+		zvsBackoffDelay = time.Duration(plan.BackoffMs) * time.Millisecond
+		backoff.DefaultConfig = backoff.Config{BaseDelay: zvsBackoffDelay, Multiplier: 1, MaxDelay: zvsBackoffDelay, Jitter: 0}
+	}
 	for _, n := range plan.Preload { // re-creates the history of TLS configurations a recorded case started from
 		if f, ok := pki.caFile[n]; ok && n != "concat" && n != "host" {
 			_, err := tlsutils.TLSClientConfiguration(pki.cliCert, pki.cliKey, []string{f})
